@@ -11,7 +11,7 @@ COMMON_ASSUME = [
     "the claim is the stated finite alphabet and depth, not all inputs",
 ]
 
-HOOK_COMMITS = ["55eb3a4f", "0e93fea4", "d333c875", "9604a163", "adfc0bbc"]
+HOOK_COMMITS = ["55eb3a4f", "0e93fea4", "d333c875", "9604a163", "adfc0bbc", "fb472076", "03f820f8"]
 NOT_APPLICABLE_REASON = {}
 
 CHECKS = {
